@@ -325,6 +325,39 @@ Section BatchR.
   Qed.
 
 
+  (* all classes: after reset everything but the kernel terms (MMD._expected_k_xx of the detector / of the
+     wrapped detector) is as in a new object *)
+  Definition forget_aux (s : st) : st :=
+    {| s_ref := s_ref P s; s_aux := None; s_iref := s_iref P s; s_iaux := None; s_n := s_n P s; s_win := s_win P s |}.
+
+  Definition tidy (c : cfg) (s : st) : Prop :=
+    (d_family (describe (c_cls Prm c)) <> FMMDs -> s_iref P s = None) /\
+    (d_family (describe (c_cls Prm c)) = FBatch -> s_n P s = 0 /\ s_win P s = []).
+
+  Lemma tidy_step : forall c s o, tidy c s -> tidy c (fst (step c s o)).
+  Proof.
+    intros c s o [A B]. unfold tidy, Batch.step.
+    destruct (c_cls Prm c) eqn:Ecl; simpl in *;
+      destruct o as [X|X|v|]; simpl; unfold Batch.batch_fit; simpl; brk_all; auto;
+      split; auto; try (intros; discriminate); try (intros H; exfalso; apply H; reflexivity);
+      try (intros _; apply A; discriminate); try (intros _; apply B; reflexivity).
+  Qed.
+
+  Lemma tidy_exec : forall c ops s, tidy c s -> tidy c (exec c s ops).
+  Proof. induction ops; simpl; intros; auto. apply IHops. apply tidy_step; auto. Qed.
+
+  Lemma reset_is_fresh_up_to_kernel_term : forall c ops,
+    forget_aux (fst (step c (exec c init ops) Rst)) = init.
+  Proof.
+    intros c ops.
+    assert (Hc : tidy c (exec c init ops)).
+    { apply tidy_exec. split; intros; simpl; auto. }
+    destruct Hc as [A B]. unfold Batch.step, forget_aux.
+    destruct (exec c init ops) as [r a ir ia n w]; simpl in *.
+    destruct (c_cls Prm c) eqn:Ecl; simpl in *; unfold init;
+      try (destruct (B eq_refl); subst); try (rewrite A by discriminate); reflexivity.
+  Qed.
+
   (* ------------------------------------------------------------------ what the reference is *)
 
   Lemma fit_sets_reference : forall c s X, snd (step c s (Fit X)) = Ok ONone ->
